@@ -73,3 +73,42 @@ func Harness_C10L2_aliased() {
 	}
 	verifCover("end")
 }
+
+func symStrs(tag string, n int) []string {
+	k := verifChoice(tag+".len", n+1)
+	if k == 0 && verifChoice(tag+".nil", 2) == 1 {
+		return nil
+	}
+	r := []string{}
+	for j := 0; j < k; j++ {
+		r = append(r, symBuf(tag+itoaV(j), 1))
+	}
+	return r
+}
+
+func sameStrs(a, b []string) bool {
+	if len(a) != len(b) {
+		return false
+	}
+	for i := range a {
+		if a[i] != b[i] {
+			return false
+		}
+	}
+	return true
+}
+
+func Harness_C10L2_string_slices() {
+	xs, ys := symStrs("xs", 2), symStrs("ys", 2)
+	var got bool
+	p, msg := tryRun(func() { got = q_strs(xs, ys) })
+	verifAssert(!p, "= on slices of strings does not panic: "+msg)
+	verifAssert(got == sameStrs(xs, ys), "= on slices of strings is elementwise equality (empty slices equal however produced)")
+	p, msg = tryRun(func() { got = q_str_empty(xs) })
+	verifAssert(!p, "= on empty slices of strings does not panic: "+msg)
+	verifAssert(got, "Filter that keeps nothing = slice.New ()")
+	p, msg = tryRun(func() { got = q_rec_strs(xs, ys) })
+	verifAssert(!p, "= on records holding slices of strings does not panic: "+msg)
+	verifAssert(got == sameStrs(xs, ys), "record holding a slice of strings")
+	verifCover("end")
+}
